@@ -40,7 +40,7 @@ def _base_of_field(e):
 def pool_gate(ck, ctx):
     F = ctx.F
     found = 0
-    for b in F.all_bodies():
+    for b in F.view_bodies():
         for bb, t in b.calls():
             if not callee_of(t).endswith("VecDeque::pop_front") and not callee_of(t).endswith("VecDeque::pop_back"):
                 continue
